@@ -277,6 +277,37 @@ def check_instance_case(ctx, case, ops, res, rc, err, files, mexe, problems):
                 names.append(e["name"])
             elif e["k"] == "endrow":
                 names = []
+    # 2c. columns in the same order: the k-th value punched in a row is stored in the k-th column of the table (text cells are positional under
+    #     the heading line, table cells are stored by name: a value skipped in the middle of a row shifts the text cells but not the table cells)
+    for n in uns:
+        o = obs["sel"].get(str(n))
+        if o is None or not o["table"]:
+            continue
+        heads_tab = [vlib.cell_value(c) for c in o["table"][0]]
+        if len(set(heads_tab)) != len(heads_tab):
+            continue
+        # a user number that is (re)defined more than once in the call accumulates the columns of all its definitions in one table
+        # (by design: cells are keyed by name) while the text gets a new heading line per definition: only single definitions are judged
+        if len(re.findall(r"(?im)^\s*SELECTED_OUTPUT\s+%d\s*$" % n, case["input"])) != 1 or len(re.findall(r"(?im)^\s*USER_PUNCH\s+%d\s*$" % n, case["input"])) > 1:
+            continue
+        names = []
+        for e in events:
+            if e.get("n") != n:
+                continue
+            if e["k"] == "pval":
+                names.append(e["name"])
+            elif e["k"] == "endrow":
+                if len(set(names)) == len(names):
+                    for k, nm in enumerate(names):
+                        if k >= len(heads_tab) or heads_tab[k] != nm:
+                            bad("row:column-order", "value #%d of a row of user number %d is stored under the table heading %r, but its text cell stands under heading #%d = %r: text rows and table rows no longer have their columns in the same order"
+                                % (k + 1, n, nm, k + 1, heads_tab[k] if k < len(heads_tab) else None), n=n)
+                            break
+                    else:
+                        names = []
+                        continue
+                    break
+                names = []
     # 3. model reproduces every sink
     for n in uns:
         o = obs["sel"].get(str(n))
